@@ -21,8 +21,9 @@ LEVEL_TEXT = (
     "UDPTunnel and TCPTunnel with auto-reconnect on and off, on the virtual loop against a scripted gateway. Failure events "
     "{server DisconnectRequest (single / duplicated / with the next ConnectRequests unanswered), heartbeat unanswered x4 / x3, "
     "ACKs dropped x2 / x1, TCP connection lost, user disconnect()} are injected at EVERY loop iteration index of the run and in "
-    "the middle of every sleep; in the thorough tier also all ordered pairs of failure kinds with the second one at every "
-    "iteration within a window after the first. Bounded exhaustive enumeration of single faults (pairs: windowed)."
+    "the middle of every sleep; plus ordered pairs of failure kinds with the second one at every iteration within a window after the first (quick: "
+    "second kind in {server disconnect, user disconnect}, window 2; thorough: all kinds, window 10 and two farther points). "
+    "Bounded exhaustive enumeration of single faults (pairs: windowed)."
 )
 LEVEL_NOTE = (
     "Trusted: virtual loop, scripted gateway. Secure tunnel NOT run (restricted to UDP + TCP; SecureTunnel inherits _Tunnel's "
@@ -42,8 +43,8 @@ TIMEOUT = {"quick": 300, "thorough": 3000}
 
 EPS = 1e-9
 CONFIGS = (("udp", True), ("udp", False), ("tcp", True), ("tcp", False))
-FAULTS_UDP = ("SD", "SD2", "SDL", "SDCR", "HB4", "HB3", "AD2", "AD1", "OOO", "BO", "BOUD", "UD")
-FAULTS_TCP = ("SD", "SD2", "SDL", "SDCR", "HB4", "HB3", "TL", "TLCR", "BO", "BOUD", "UD")
+FAULTS_UDP = ("SD", "SD2", "SDL", "SDRE", "SDCR", "HB4", "HB3", "AD2", "AD1", "OOO", "BO", "BOUD", "UD")
+FAULTS_TCP = ("SD", "SD2", "SDL", "SDRE", "SDCR", "HB4", "HB3", "TL", "TLCR", "BO", "BOUD", "UD")
 
 _current = {"session": None}
 
@@ -91,6 +92,8 @@ class Session:
         self.ack_silent = 0
         self.connect_silent = 0
         self.blackout_until = 0.0
+        self.last_loss = "nothing"
+        self.disconnect_again_after_reconnect = False
         self.established = False
         self.pending_connect = None  # (transport index, time)
         self.user_disconnect_called = False
@@ -167,6 +170,15 @@ class Session:
     def reconnect_exit(self):
         self.active_reconnects -= 1
         self.gw.note("reconnect_exit", active=self.active_reconnects)
+        if self.disconnect_again_after_reconnect and self.gw.is_open:
+            self.disconnect_again_after_reconnect = False
+            self.loop.call_soon(self._disconnect_again)
+
+    def _disconnect_again(self):
+        if self.gw.is_open:
+            self.count("server_disconnect_right_after_reconnect")
+            self.gw.note("fault", fault="SDRE-second")
+            self.gw.send_disconnect_request()
 
     def _on_tcp_connection(self, tr):
         self.gw.note("tcp_connection_opened", tr=self.gw.tr_index(tr))
@@ -195,9 +207,11 @@ class Session:
                 self.count("handshakes_started")
             elif typ == "DisconnectRequest":
                 self.established = False
+                self.last_loss = "own-DisconnectRequest"
         elif kind == "rx":
             if typ == "DisconnectRequest":
                 self.established = False
+                self.last_loss = "server-DisconnectRequest"
         elif kind == "rx_done":
             if typ == "ConnectResponse":
                 pc = self.pending_connect
@@ -208,9 +222,11 @@ class Session:
         elif kind == "transport_lost":
             self.established = False
             self.pending_connect = None
+            self.last_loss = "transport-loss"
         elif kind == "user_disconnect_called":
             self.established = False
             self.pending_connect = None
+            self.last_loss = "user-disconnect"
 
     def _state_cb1(self, state):
         self.cb1.append(state.name)
@@ -234,7 +250,8 @@ class Session:
         if cm.connected.is_set() != connected:
             self.flag("connected-event-differs-from-state-at-sleep-point", state=cm.state.name)
         if connected and not self.established:
-            self.flag("state-CONNECTED-while-no-connection-established", iteration=self.inj.now)
+            cause = "user-disconnect" if self.user_disconnect_called else self.last_loss
+            self.flag(f"state-CONNECTED-with-no-connection-after-{cause}", iteration=self.inj.now)
         elif self.established and not connected:
             self.flag(f"state-{cm.state.name}-while-connection-established", iteration=self.inj.now)
 
@@ -242,13 +259,15 @@ class Session:
     def apply(self, kind):
         gw = self.gw
         self.injected.append((kind, self.inj.now, round(self.loop.time() - 1000, 4)))
-        if kind in ("SD", "SD2", "SDCR"):
+        if kind in ("SD", "SD2", "SDCR", "SDRE"):
             if not gw.is_open:
                 self.count("fault_not_applicable")
                 return
             ch, tr = gw.channel, gw.transport
             if kind == "SDCR":
                 self.connect_silent = 2
+            if kind == "SDRE":  # ... and the server disconnects again in the instant the reconnect has completed
+                self.disconnect_again_after_reconnect = True
             gw.note("fault", fault=kind)
             gw.send_disconnect_request()
             if kind == "SD2":  # the datagram arrives twice
@@ -414,12 +433,12 @@ def judge_session(ctx, transport, auto, faults, sample=False):
 
 def run(ctx):
     ctx.rule = ("baseline session x {udp,tcp} x auto_reconnect {on,off}; every failure kind at every loop iteration k of the run and "
-                "at the middle of every sleep (singles); thorough: ordered pairs of kinds, second at k1..k1+W and 3 far points; "
+                "at the middle of every sleep (singles); pairs: (any kind, then SD or UD at k1..k1+2) in quick, all ordered pairs with the second at k1..k1+10, k1+12, k1+30 in thorough; "
                 "distinct = (transport, auto, fault kinds, state-callback sequence, reconnects, handshakes)")
-    ctx.require("fault_SD", "fault_SD2", "fault_SDL", "fault_SDCR", "fault_OOO", "fault_BO", "fault_BOUD", "frames_swallowed_by_blackout", "fault_HB4", "fault_HB3", "fault_AD2", "fault_AD1", "fault_TL", "fault_TLCR",
+    ctx.require("fault_SD", "fault_SD2", "fault_SDL", "fault_SDRE", "server_disconnect_right_after_reconnect", "fault_SDCR", "fault_OOO", "fault_BO", "fault_BOUD", "frames_swallowed_by_blackout", "fault_HB4", "fault_HB3", "fault_AD2", "fault_AD1", "fault_TL", "fault_TLCR",
                 "fault_UD", "reconnects_started", "handshakes_completed", "state_callbacks", "sleep_points_checked",
                 "user_disconnect_returned", "heartbeats_left_unanswered", "acks_dropped", "connect_requests_left_unanswered")
-    window = ctx.scale(0, 10)
+    window = ctx.scale(2, 10)
     i = 0
     with watch_reconnect():
         for transport, auto in CONFIGS:
@@ -436,11 +455,13 @@ def run(ctx):
                     if not ctx.mine(i):
                         continue
                     judge_session(ctx, transport, auto, [(kind, k, frac)], sample=(kind in ("SDCR", "HB4") and k == 20))
-            if window:
+            if True:
+                seconds = kinds if window > 2 else ("SD", "UD")
+                far = [k1_off for k1_off in ((12, 30) if window > 2 else ())]
                 for k1 in range(k0, n_iter):
                     for kind1 in kinds:
-                        for kind2 in kinds:
-                            for k2 in list(range(k1, k1 + window + 1)) + [k1 + 25, k1 + 60, k1 + 120]:
+                        for kind2 in seconds:
+                            for k2 in list(range(k1, k1 + window + 1)) + [k1 + d for d in far]:
                                 i += 1
                                 if not ctx.mine(i):
                                     continue
